@@ -71,6 +71,8 @@ def rule_r1(ctx):
                                 bad = ("per-iteration", f"hole {path} lies inside the per-iteration part of the loop comprehension at {over[11:]}")
                         elif _at_most_once(pr, over):
                             continue
+                        elif over.startswith("bykey("):
+                            bad = ("collapsed-by-key", f"hole {path} is emitted once per distinct KEY of a dict built from {over[6:-1]}: entries with equal keys collapse into the last one (two `**mapping` keywords both have the key None), the others are never evaluated")
                         else:
                             base = re.sub(r"^(reversed|chain|zip)\((.*)\)$", r"\2", over)
                             base = norm_path(base)
